@@ -179,7 +179,8 @@ def run_case(ctx, src, flagged, workdir, server, extra_args=(), nt=False, family
     exp = expected_of(src, flagged)
     with open(os.path.join(workdir, 't.tex'), 'w', encoding='utf-8', newline='') as f:
         f.write(src)
-    log = os.path.join(workdir, 'log.jsonl')
+    SRV_COUNT[0] += 2
+    log = os.path.join(workdir, 'log-%d.jsonl' % SRV_COUNT[0])      # fresh log per case: no late writer of an earlier case
     plan = {'mode': 'flag_words', 'words': [t[0] for t in flagged], 'log': log, 'shuffle': True}
     for mode in (modes or MODES):
         rc = {'src': src, 'flagged': flagged, 'args': list(extra_args), 'mode': mode}
@@ -193,6 +194,8 @@ def run_case(ctx, src, flagged, workdir, server, extra_args=(), nt=False, family
         check_mode(mode, out, src, exp, rc)
         if ml_info is not None:
             check_log(log, ml_info, rc)
+        if os.path.exists(log) and mode != (modes or MODES)[-1]:
+            os.unlink(log)
         ctx.stats.case(key=(src, [t[0] for t in flagged], mode, list(extra_args)), nontrivial=nt,
                        classes=[family + ':' + mode] + (['non-ascii-before-word'] if any(ord(c) > 127 for e in exp for c in src.split('\n')[e['line'] - 1][:e['col'] - 1]) else []),
                        sample={'src': src[-400:], 'flagged': [t[0] for t in flagged], 'mode': mode, 'args': list(extra_args)})
@@ -203,8 +206,7 @@ def run_case(ctx, src, flagged, workdir, server, extra_args=(), nt=False, family
             with open(sut_plan, 'w', encoding='utf-8') as f:
                 json.dump(plan, f, ensure_ascii=False)
             tex = src if src.endswith('\n') else src + '\n'
-            SRV_COUNT[0] += 1
-            with_field = SRV_COUNT[0] % 2 == 1
+            with_field = (SRV_COUNT[0] // 2) % 2 == 1
             if os.path.exists(log):
                 os.unlink(log)
             try:
